@@ -22,6 +22,12 @@ def used(name):
 
 
 # ---------------------------------------------------------------------------
+class ZSetSplat:
+    """'all the elements of this z3 set' inside a Python list/iteration"""
+    def __init__(self, zset):
+        self.zset = zset
+
+
 class BitStr:
     """A Python str of known length whose characters are concrete characters or
     symbolic binary digits (z3 Bool: True = '1').  Produced by '{0:0Nb}'.format."""
@@ -309,6 +315,11 @@ def binop(world, ex, opname, a, b):
         if opname in ("|", "&", "-"):
             name = {"|": "union", "&": "intersection", "-": "difference"}[opname]
             return set_op(world, ex, name, a, b)
+        if opname == "^":
+            used("set ^ = symmetric difference")
+            za = set_to_z3(world, ex, a)
+            zb = set_to_z3(world, ex, b, za.sort().domain())
+            return z3.SetDifference(z3.SetUnion(za, zb), z3.SetIntersect(za, zb))
     # floats
     if isinstance(a, FloatVal) or isinstance(b, FloatVal):
         return float_binop(world, ex, opname, a, b)
@@ -684,6 +695,7 @@ def contains(world, ex, cont, x):
         if any(c is True for c in cs):
             return True
         cs = [to_bool(c) for c in cs if c is not False]
+        cs += [z3.IsMember(x, z) for z in cont.zextra if is_z3(x) and x.sort() == z.sort().domain()]
         return z3.Or(cs) if cs else False
     if isinstance(cont, DictVal):
         cs = [_eq(world, ex, x, k) for k, _ in cont.items]
@@ -777,6 +789,8 @@ def iterate(world, ex, v):
     if isinstance(v, dict):
         return list(v.keys())
     if isinstance(v, SetVal):
+        if v.zextra:
+            return list(v.items) + [ZSetSplat(z) for z in v.zextra]
         return permuted(world, ex, v.items)
     if isinstance(v, DictVal):
         return [k for k, _ in v.items]
@@ -790,6 +804,7 @@ def iterate(world, ex, v):
         for x in items:
             s = z3.SetAdd(s, x)
         ex.assume(S.qvset(v.n) == s)
+        ex.assume(S.qv_ok(v.n) == z3.And([S.op(x) == S.SYMBOL for x in items]))
         return items
     if isinstance(v, str):
         return list(v)
@@ -802,9 +817,10 @@ def iterate(world, ex, v):
     if is_sym_str(v):
         n = concretize_int(world, ex, z3.Length(v), 0, 16, "str-len-bound")
         return [z3.SubString(v, i, 1) for i in range(n)]
-    if is_zset(v) or isinstance(v, ZSetTuple):
-        z = v.zset if isinstance(v, ZSetTuple) else v
-        return zset_elements(world, ex, z)
+    if is_zset(v):
+        return [ZSetSplat(v)]
+    if isinstance(v, ZSetTuple):
+        return zset_elements(world, ex, v.zset)
     h = world.config.get("iterate")
     if h is not None:
         r = h(ex, v)
@@ -1003,6 +1019,15 @@ def make_dict(world, ex, items):
 
 def make_set(world, ex, items, frozen=False):
     items = list(items)
+    if any(isinstance(x, ZSetSplat) for x in items):
+        z = None
+        rest = [x for x in items if not isinstance(x, ZSetSplat)]
+        for x in items:
+            if isinstance(x, ZSetSplat):
+                z = x.zset if z is None else z3.SetUnion(z, x.zset)
+        for x in rest:
+            z = z3.SetAdd(z, x if is_z3(x) else z3const(x))
+        return z
     if all(concrete(x) and isinstance(x, (int, str, bool, type(None), tuple, Fraction)) for x in items):
         return frozenset(items) if frozen else set(items)
     s = SetVal(frozen=frozen)
@@ -1012,6 +1037,8 @@ def make_set(world, ex, items, frozen=False):
 
 
 def set_add(world, ex, s, x):
+    if isinstance(x, ZSetSplat):
+        raise Unsupported("adding a whole symbolic set as one element")
     if isinstance(s, set):
         if concrete(x):
             s.add(x)
@@ -1029,6 +1056,14 @@ def set_to_z3(world, ex, s, dom=None):
     if isinstance(s, ZSetTuple):
         return s.zset
     items = list(s.items) if isinstance(s, SetVal) else list(s)
+    extra = list(s.zextra) if isinstance(s, SetVal) else []
+    if extra:
+        z = extra[0]
+        for e in extra[1:]:
+            z = z3.SetUnion(z, e)
+        for x in items:
+            z = z3.SetAdd(z, x)
+        return z
     if isinstance(s, (ArgsView, QVars)):
         if isinstance(s, QVars):
             return S.qvset(s.n)
